@@ -17,6 +17,8 @@ CLAIMS = {
  "C03": "Index arithmetic of both block queues as Kani function contracts (complete); white-box K3 obligations: consumer never reports empty / reads a reserved unwritten slot, value written before ready/tail-index publication, last-slot block installation (complete, loop-free); sequential FIFO behaviour across block boundaries, recycling and drop as bounded scenario stand-ins. Linearizability under real concurrent producers is NOT decided.",
  "C04": "pack/unpack and mark_slots_read contracts (complete); sequential exactly-once / order of owner pop and steal_into as bounded scenario stand-ins (copy_to_bulk replaced by its contract because SmallVec+packed pointers exceed 30 GB in CBMC). Concurrent stealers, over-claim/skip paths and ABA are NOT decided.",
  "C05": "lock/try_lock/unlock accounting for every count value; register-before-count ordering; unlock hands over to exactly one live waiter incl. abandoned waiters; a cancelled waiter forwards the hand-off exactly once under every interleaving of one concurrent unpark_one; with cancel disabled the hand-off is kept and not also forwarded (found and fixed D7). Fairness/liveness not decided.",
+ "C06": "mpsc/spsc/mpmc channel cores: send makes the value available before it wakes/posts, a blocked or about-to-block receiver is woken by the send under every placement of one concurrent send relative to the receiver's steps, values come out once and in order through the abstract queue contract (queue FIFO itself: C03). Multi-sender/multi-receiver interleavings beyond one concurrent action are NOT decided.",
+ "C07": "disconnect: receiver never parks once the last sender is past its wake-up (mpsc, every placement of the drop), drain-before-Disconnected, spsc coroutine subscribe re-checks every wake condition (found and fixed D3a), mpmc disconnect permit is sticky (found and fixed D3b), send after receiver drop returns the value.",
  "C08": "duration conversion used by every coroutine-side timed wait: never lost, never early, within one tick for all durations (Kani bit-precise + Verus unbounded, found and fixed D1); park hands the caller's duration to the timer unchanged. Timer-thread scheduling order and wall-clock promptness are NOT decided by these contracts.",
  "C09": "cancel/park interaction: subscribe re-checks the cancel bit after registering, cancel takes the coroutine exactly once and passes the Canceled result, result consumed before return; every lock-like primitive forwards a hand-off/permit/notification that raced with the cancellation exactly once (Mutex, RwLock, Semphore, SyncFlag, Condvar) and releases the mutex before the cancel panic without poisoning (poison truth table). Exactly-once drop of stack-owned values during unwinding is NOT decided (generator shim).",
  "C10": "one-step value contracts from every non-negative value (complete induction basis for permit conservation), register-before-decrement, post wakes exactly one and re-posts for abandoned waiters, aborted waits return the permit exactly once under every interleaving with one concurrent wakeup; SyncFlag latch for every counter value incl. late decrements.",
@@ -28,8 +30,6 @@ CLAIMS = {
  "C19": "push post-state and consumer-spins-while-push-in-flight as complete white-box obligations; sequential exactly-once / order / remove semantics / reference counting as bounded scenario stand-ins with symbolic payloads under CBMC pointer checks. Concurrent push vs remove is NOT decided.",
 }
 NOT_YET = {
- "C06": "not claimed yet: channel send/recv ordering contracts are under construction (queue FIFO is covered by C03)",
- "C07": "not claimed yet: disconnect obligations under construction",
  "C15": "not claimed yet: coroutine-local storage obligations under construction",
  "C16": "not claimed yet: cqueue obligations under construction",
  "C17": "not claimed yet: socket I/O loop obligations under construction",
